@@ -56,6 +56,29 @@ def _table_order(p: Program, rep: Report, rule: str, cls: ClassInfo, search: Fun
                 okv = True
             if isinstance(val, ast.ListComp) and len(val.generators) == 1 and isinstance(val.generators[0].iter, ast.Name) and val.generators[0].iter.id == va and not val.generators[0].ifs:
                 okv = True
+            if not okv and isinstance(val, ast.Name):
+                # a local whose only definition is one of the copy forms above (also what the loader's normal forms make of a bare
+                # `for x in routes: acc.append(x)` loop)
+                from ..common import defs_of
+                try:
+                    ds_ = [d for d in defs_of(init, val, depth=3) if not (isinstance(d, ast.List) and not d.elts)]
+                except Exception:
+                    ds_ = []
+                def _copy_form(d):
+                    if isinstance(d, ast.List) and len(d.elts) == 1 and isinstance(d.elts[0], ast.Starred):
+                        inner = d.elts[0].value
+                        if isinstance(inner, ast.Name) and inner.id == va:
+                            return True
+                        if isinstance(inner, (ast.GeneratorExp, ast.ListComp)) and len(inner.generators) == 1 and isinstance(inner.generators[0].iter, ast.Name) and inner.generators[0].iter.id == va \
+                                and not inner.generators[0].ifs and ast.unparse(inner.elt) == ast.unparse(inner.generators[0].target):
+                            return True
+                    if isinstance(d, ast.Call) and isinstance(d.func, ast.Name) and d.func.id in ("list", "tuple") and len(d.args) == 1 and isinstance(d.args[0], ast.Name) and d.args[0].id == va:
+                        return True
+                    if isinstance(d, ast.ListComp) and len(d.generators) == 1 and isinstance(d.generators[0].iter, ast.Name) and d.generators[0].iter.id == va and not d.generators[0].ifs:
+                        return True
+                    return False
+                if ds_ and all(_copy_form(d) for d in ds_):
+                    okv = True
             wrong = None
             acc_name = val.id if isinstance(val, ast.Name) else (ast.unparse(tgt) if isinstance(val, ast.List) and not val.elts else None)
             if not okv and acc_name is not None:
